@@ -171,6 +171,8 @@ def check(scenario, w, st, res, ids):
     res.nontrivial = len(hist) >= 3
     res.state_sigs = [(scenario['proto'], scenario['compress'] is not None)]
     ob()
+    if sim.end_state == 'inconclusive':
+        return
     if sim.end_state != 'done':
         V.append(('C11/%s' % sim.end_state, repr(sim.end_detail)))
         return
